@@ -22,6 +22,39 @@ CLAIMED = {
                      "attribute-dependence comparison of sibling methods (stdlib ast)",
         "design_ref": "DESIGN.md section 3, C12",
     },
+    "C18": {
+        "text": "Decides structural clauses D1-D4 of C18 on DataSet: the refusal in concatenate must depend on the other set's scaling "
+                "(violated today: recorded known finding), every scaling attribute written by the scaling methods is carried by "
+                "_update_internal and every DataSet constructed in a DataSet method flows through it, samples and labels are always "
+                "rebuilt with the same selector (delete / slice / predicate / shuffle / swap), and remove_samples rejects before it stores. "
+                "Necessary conditions on every path; the numerical clauses (min/max on range ends, revert restores samples) are NOT decided.",
+        "technique": "field-sensitive guard dependence, attribute-set inclusion, must-pass-through on the CFG, selector value-term equality "
+                     "for parallel arrays, dominance of raising guards over stores",
+        "design_ref": "DESIGN.md section 3, C18",
+    },
+    "C19": {
+        "text": "Decides structural clauses D1-D6 of C19: no result of a pure value-returning DataSet method is dropped anywhere in the "
+                "package (effect analysis; this rule found the repaired test_data defect), learning-time scaling attributes are init-only "
+                "and re-applied by the same shift/scale/shift triple with consistent constants, _classificate takes the arg-max over all "
+                "classifiers on the class axis, evaluation summaries are computed from the same sequences and total, earlier calculated "
+                "classes are only extended, and only range-filtered data is classified. Correctness of densities / label = index is NOT decided.",
+        "technique": "method effect (purity) analysis + dropped-result scan, init-only ownership, sibling call-sequence agreement, value-term "
+                     "pattern checks, def-use derivation from the out-of-range filter",
+        "design_ref": "DESIGN.md section 3, C19",
+    },
+    "C20": {
+        "text": "Decides structural clauses D1-D4 of C20: literal-kind flow from Regression's default arguments to "
+                "MinMaxScaler(feature_range=...) against the constraint declared in the installed scikit-learn source (found the repaired "
+                "default-construction defect), identical 1/m factor and design matrix on both sides of the normal equations in both "
+                "solvers with lambda on the selected matrix and plain lstsq iff lambda == 0, mirrored stores in triangular matrix "
+                "builders, and a sum-normalisation at every coefficient store of the six Opticom variants. Gram-matrix values and "
+                "definiteness are NOT decided.",
+        "technique": "inter-procedural literal-kind dataflow, value-term decomposition of the normal equations, paired-store check in "
+                     "triangular loops, reaching-definition based normalisation idiom",
+        "design_ref": "DESIGN.md section 3, C20",
+        "note": "The sklearn constraint is read by parsing /venv/lib/python3*/site-packages/sklearn/preprocessing/_data.py (not imported); "
+                "if absent, `tuple` is assumed and recorded in the evidence.",
+    },
 }
 
 NOT_APPLICABLE = {
